@@ -55,9 +55,13 @@ int main(int argc, char **argv)
     }
     std::string drv = argv[1];
     int timeoutS = 60;
+    bool isolate = false; // one fresh process per scenario (C12: no history carried between scenarios)
     for (int i = 4; i + 1 < argc; i += 2) {
         if (!strcmp(argv[i], "--timeout")) {
             timeoutS = atoi(argv[i + 1]);
+        }
+        if (!strcmp(argv[i], "--isolate")) {
+            isolate = atoi(argv[i + 1]) != 0;
         }
     }
     auto it = drivers().find(drv);
@@ -94,7 +98,7 @@ int main(int argc, char **argv)
             std::set_terminate(onTerminate);
             Emitter out;
             out.f = gTrace;
-            for (long i = start; i < n; ++i) {
+            for (long i = start; i < (isolate ? start + 1 : n); ++i) {
                 gShared->cur = i;
                 J sc = parseJson(lines[static_cast<size_t>(i)]);
                 out.sc = sc["sc"].num(i);
@@ -114,6 +118,10 @@ int main(int argc, char **argv)
         int status = 0;
         waitpid(pid, &status, 0);
         if (WIFEXITED(status) && WEXITSTATUS(status) == 0) {
+            if (isolate && start + 1 < n) {
+                ++start;
+                continue;
+            }
             break;
         }
         ++crashes;
